@@ -10,7 +10,6 @@ before typhon sees the data):
 Nothing in here imports typhon.
 """
 import math
-import statistics
 
 import numpy as np
 
@@ -101,10 +100,24 @@ def _nan_stats(values):
     if n == 0:
         nan = float("nan")
         return nan, nan, 0, nan, nan, 0.0
+    finite = [v for v in good if not math.isinf(v)]
+    scale = max(abs(v) for v in finite) if finite else 0.0
+    ordered = sorted(good)
+    if n % 2:
+        median = ordered[n // 2]
+    else:       # (-inf + inf) / 2 is NaN, like the mean of the two
+        median = (ordered[n // 2 - 1] + ordered[n // 2]) / 2
+    if len(finite) < n:
+        # infinite partner values are data: they count, the mean is the
+        # infinity (NaN if both signs occur), the deviations from an infinite
+        # or undefined mean are undefined
+        signs = {v > 0 for v in good if math.isinf(v)}
+        mean = float("nan") if len(signs) == 2 else (
+            float("inf") if True in signs else float("-inf"))
+        return mean, float("nan"), n, max(good), median, scale
     mean = math.fsum(good) / n
     var = math.fsum((v - mean) * (v - mean) for v in good) / n
-    return (mean, math.sqrt(var), n, max(good), statistics.median(good),
-            max(abs(v) for v in good))
+    return mean, math.sqrt(var), n, max(good), median, scale
 
 
 def collapse_expected(spec, reference):
@@ -197,7 +210,10 @@ def close_values(got, exp, scale, rtol=1e-12):
     nan_g, nan_e = np.isnan(got), np.isnan(exp)
     if not np.array_equal(nan_g, nan_e):
         return False
-    ok = ~nan_e
+    inf_e = np.isinf(exp)
+    if not np.array_equal(got[inf_e], exp[inf_e]):
+        return False
+    ok = ~nan_e & ~inf_e
     if not ok.any():
         return True
     return bool(np.all(np.abs(got[ok] - exp[ok])
